@@ -330,7 +330,10 @@ void ezc3d::c3d::point(const std::string &name){
             dummy_frames.push_back(frame);
         point(dummy_frames);
     } else {
-        updateParameters({name});
+        // Store the label as a point would be named (without trailing spaces)
+        std::string trimmedName(name);
+        ezc3d::removeTrailingSpaces(trimmedName);
+        updateParameters({trimmedName});
     }
 }
 
@@ -376,7 +379,10 @@ void ezc3d::c3d::analog(const std::string &name)
             dummy_frames.push_back(frame);
         analog(dummy_frames);
     } else {
-        updateParameters({}, {name});
+        // Store the label as a channel would be named (without trailing spaces)
+        std::string trimmedName(name);
+        ezc3d::removeTrailingSpaces(trimmedName);
+        updateParameters({}, {trimmedName});
     }
 }
 
